@@ -222,7 +222,7 @@ PROPS = {
         "assumptions": [
             "'terminates' is decided as 'returns within 20s' for cases that normally take microseconds",
             "step 0 with start != end is outside the statement (well-formed parameters) and belongs to C16",
-            "template arguments are small (sprig's repeat/indent allocate what they are asked to)",
+            "template arguments are small (sprig's repeat/indent allocate what they are asked to; a line used as a regular expression over itself costs pattern x text and is kept below 256 bytes)",
         ],
         "quick": [rapid("TestC17", 4000)],
         "thorough": [rapid("TestC17", 100000, shards=16, timeout=3000), fuzz("FuzzC17", 300)],
